@@ -16,6 +16,11 @@ def showOpt : Option XR → String
   | none => "ERR"
   | some v => toString v
 
+def quads : List String → Option (List (String × String × String × String))
+  | [] => some []
+  | a :: b :: c :: d :: r => (quads r).map ((a, b, c, d) :: ·)
+  | _ => none
+
 def handle (args : List String) : Option String :=
   match args with
   | ["gencont", name, a, b, c, d] => do
@@ -45,6 +50,15 @@ def handle (args : List String) : Option String :=
       let I := intervalOf b (← parseXR? t) (← parseXR? u)
       let (obs, fcst) := (← parseVec? obs, ← parseVec? fcst)
       some (showOpt (contScore floatTr name I I obs fcst))
+  -- several scores one after the other on the same data (name, bin type, threshold, upper threshold, …): a score is a
+  -- function of the data and the event alone
+  | "contseq" :: obs :: fcst :: rest => do
+      let (obs, fcst) := (← parseVec? obs, ← parseVec? fcst)
+      let outs ← (← quads rest).mapM fun (name, b, t, u) => do
+        let b ← BinType.ofName? b
+        let I := intervalOf b (← parseXR? t) (← parseXR? u)
+        some (showOpt (contScore floatTr name I I obs fcst))
+      some (" ".intercalate outs)
   | ["contperfect", name] => some (showOpt (Gen.Cont.perfect name))
   | ["contnames"] => some (",".intercalate Gen.Cont.names)
   | _ => none
